@@ -61,6 +61,8 @@ theorem fireOf_gate {s c} (h : sp.getDef i = .gate s c) :
   simp only [fireOf, h]
 theorem fireOf_hold {s k} (h : sp.getDef i = .hold s k) : fireOf sp ev look i = look s := by
   simp only [fireOf, h]
+theorem fireOf_holdz {s c} (h : sp.getDef i = .holdz s c) : fireOf sp ev look i = look s := by
+  simp only [fireOf, h]
 theorem fireOf_once {s} (h : sp.getDef i = .once s) :
     fireOf sp ev look i = if sp.onceDone.get i then some none else look s := by
   simp only [fireOf, h]
@@ -205,6 +207,7 @@ theorem fireOf_mono (sp : Spec) (ev : Events) {look look' : Nat → Option (Opti
   | snapshotn s cs => rw [fireOf_snapshotn _ _ _ _ hd] at hf ⊢; exact map_look_mono h _ _ _ hf
   | gate s c => rw [fireOf_gate _ _ _ _ hd] at hf ⊢; exact map_look_mono h _ _ _ hf
   | hold s k => rw [fireOf_hold _ _ _ _ hd] at hf ⊢; exact h _ _ hf
+  | holdz s c => rw [fireOf_holdz _ _ _ _ hd] at hf ⊢; exact h _ _ hf
   | once s =>
     rw [fireOf_once _ _ _ _ hd] at hf ⊢
     split
@@ -350,12 +353,13 @@ theorem fireTable_solves (sp : Spec) (ev : Events) (i : Nat) (r : Option Int) :
 /-! ### totality for well-ranked programs -/
 
 /-- the definitions whose firing `fireOf` may ask for, for definition `i` in state `sp`
-    (cells that are only read by value are not operands) -/
+    (cells that are only read by value are not operands; for `holdz s c` the operand is `s`, the cell
+    `c` is a value dependency: `valDeps`) -/
 def operands (sp : Spec) (i : Nat) : List Nat :=
   match sp.getDef i with
   | .sink _ | .csink _ | .defer _ | .split .. | .const _ | .never => []
   | .map s _ | .mapto s _ | .filter s _ | .snapshot s _ _ | .snapshot1 s _ | .snapshotn s _
-  | .gate s _ | .hold s _ | .once s | .accum s _ _ | .collect s _ _ | .route s _ _ => [s]
+  | .gate s _ | .hold s _ | .holdz s _ | .once s | .accum s _ _ | .collect s _ _ | .route s _ _ => [s]
   | .updates c | .value c | .mapc c _ => [c]
   | .merge a b _ | .orelse a b | .lift2 a b _ => [a, b]
   | .liftn cs => cs
@@ -369,10 +373,20 @@ def operands (sp : Spec) (i : Nat) : List Nat :=
      | some t => [t]
      | none => [])
 
-/-- `rank` decreases strictly from every definition to its operands, which all exist -/
+/-- the cells whose *value* `cellVal` reads for cell `i` without their being firing operands of `i`:
+    the cell `c` of a `holdz s c` (the Lazy it was made with), read while nothing is stored for `i`.
+    (For every other derived cell the cells read by `cellVal` are among its `operands`.) -/
+def valDeps (sp : Spec) (i : Nat) : List Nat :=
+  match sp.getDef i with
+  | .holdz _ c => [c]
+  | _ => []
+
+/-- `rank` decreases strictly from every definition to its operands, which all exist, and to the cells
+    whose value it reads (`valDeps`), so that both the firing equations and `cellVal` are well-founded -/
 structure WellRanked (sp : Spec) (rank : Nat → Nat) : Prop where
   bound : ∀ i, i < sp.defs.size → rank i ≤ sp.defs.size
   dec : ∀ i, i < sp.defs.size → ∀ j, j ∈ operands sp i → j < sp.defs.size ∧ rank j < rank i
+  vdec : ∀ i, i < sp.defs.size → ∀ j, j ∈ valDeps sp i → j < sp.defs.size ∧ rank j < rank i
 
 theorem mapM_look_isSome (look : Nat → Option (Option Int)) :
     ∀ cs : List Nat, (∀ c, c ∈ cs → look c ≠ none) → cs.mapM look ≠ none := by
@@ -451,6 +465,9 @@ theorem fireOf_resolved (sp : Spec) (ev : Events) (look : Nat → Option (Option
   | hold s k =>
     have hs := h s (by simp [operands, hd])
     rw [fireOf_hold _ _ _ _ hd]; exact hs
+  | holdz s c =>
+    have hs := h s (by simp [operands, hd])
+    rw [fireOf_holdz _ _ _ _ hd]; exact hs
   | once s =>
     have hs := h s (by simp [operands, hd])
     rw [fireOf_once _ _ _ _ hd]
